@@ -508,6 +508,26 @@ def rule_indicator(repo: Repo) -> List[Ob]:
 
     # (e) binary means: all values in {0, 1}
     b = repo.function(rp2, "Finite.__init__")
+    # every field that carries the values onwards (the ordered tuple the power reduction is computed from) holds the values themselves
+    bself = b.params()[0]
+    bdefs = Defs(b.node, bself)
+    LOSSY = {"int", "float", "round", "floor", "ceiling", "N", "evalf", "trunc", "Float"}
+    for st in walk_no_nested(b.node):
+        if not (isinstance(st, ast.Assign) and len(st.targets) == 1 and is_self_attr(st.targets[0], None, bself)):
+            continue
+        fld = st.targets[0].attr
+        if fld in ("binary",):
+            continue
+        r = bdefs.roots(st.value)
+        if not ({"attr:values"} & r or any(x.startswith("param:") for x in r)):
+            continue
+        keyv = f"{rp2}::Finite.__init__::values-kept::{fld}"
+        lossy = [c0 for c0 in ast.walk(st.value) if isinstance(c0, ast.Call) and (call_name(c0) or "") in LOSSY]
+        if lossy:
+            obs.append(Ob(R, keyv, rp2, st.lineno, b.qualname, False,
+                          f"`{src(st)[:80]}` passes the values through `{call_name(lossy[0])}`: a finite type with non-integer values (1/2, 3/2) is reduced as if its values were their truncations"))
+        else:
+            obs.append(Ob(R, keyv, rp2, st.lineno, b.qualname, True, f"self.{fld} holds the type's values unchanged"))
     key = f"{rp2}::Finite.__init__::binary"
     bassign = next((n for n in walk_no_nested(b.node) if isinstance(n, ast.Assign) and is_self_attr(n.targets[0], "binary", b.params()[0])), None)
     if bassign is None:
